@@ -17,12 +17,12 @@ for N in "${NAMES[@]}"; do
   [ -f seeded/$N/patch.diff ] || continue
   P=$(python3 -c "import json;print(json.load(open('seeded/$N/meta.json'))['breaks_property'])")
   if [ -n "$(git -C /repo status --porcelain --untracked-files=no)" ]; then echo "/repo dirty, abort"; exit 2; fi
-  if ! git -C /repo apply --check seeded/$N/patch.diff 2>/dev/null; then
+  if ! git -C /repo apply --check $ROOT/seeded/$N/patch.diff 2>/dev/null; then
     echo "| $N | $P | no (superseded by a later fix commit) | - | - | - |" >> $OUT/MATRIX.md
     echo "$N: does not apply"
     continue
   fi
-  git -C /repo apply seeded/$N/patch.diff
+  git -C /repo apply $ROOT/seeded/$N/patch.diff
   RES=$(VERIF_OUT=$OUT/out ./check $P quick 2>&1); RC=$?
   git -C /repo checkout -- .
   KEY=$(echo "$RES" | grep -m1 '^  key=' | sed 's/^  key=\([^ ]*\).*/\1/')
